@@ -1,10 +1,14 @@
 """C17 -- Newmark-Beta and coupled-damping-as-force recurrences (partial claim).
 
-Every rule decides on *values*: the solver source is interpreted (verifier/c17_interp.py; nothing of /repo is imported or run) on a small
-system with symbolic entries - 2 degrees of freedom, 5 time steps, explicit matrices, two opaque nonlinear terms - in every configuration
-the code distinguishes (diagonal / full matrices, with / without nonlinear terms, m None / given, order 0 / 1, rf modes) and the resulting
-arrays, attributes and recorded calls are compared with an independent transcription of the documented recurrences.  The spelling of the
-source (names, temporaries, polarity of tests, kind of loop, helper functions, import aliases, views, index style) does not enter."""
+Every rule decides on *values* observed at the PUBLIC interface: the solver source is interpreted (verifier/c17_interp.py; nothing of /repo is
+imported or run) from the constructor through def_nonlin to tsolve (and generator / finalize for SolveCDF) on a small system with symbolic
+entries - 2 degrees of freedom plus an optional rf mode (first, last or in the middle), 3-4 time steps, explicit matrices, two opaque
+nonlinear terms - in every configuration the code distinguishes (diagonal / full matrices, with / without nonlinear terms, m None / given,
+order 0 / 1, initial conditions given or not).  What tsolve returns (sol.d, sol.v, sol.a, sol.z) and what the user's nonlinear functions are
+called with is compared with an independent transcription of the documented recurrences, whose matrices are read from the docstring's LaTeX.
+The spelling of the source (names, temporaries, polarity of tests, kind of loop, helper functions or classes, generators, import aliases,
+views, index style) does not enter, and neither do the contracts between private methods or the representation of private members
+(how A is kept factored, what _init_dva returns, how the nonlinear terms are recorded, whether alpha is stored)."""
 from __future__ import annotations
 
 import ast
@@ -14,7 +18,6 @@ from . import c17_interp as I
 from . import e2_formula as F
 from . import ode_spaces as O
 from .core import AnchorError, Unsupported
-from .e1_srcmodel import dotted, walk_no_nested, ancestors
 from .e2_eval import Evaluator, is_unknown, need
 
 NM, UNC, BASE = O.NM, O.UNC, O.BASE
@@ -182,11 +185,15 @@ def _interp(ctx, on_opaque=None, stubs=None):
     return it
 
 
-def _guard(ctx, tag, where, thunk, partial=False):
+def _guard(ctx, tag, where, thunk, partial=False, cap=150000):
     """run an evaluation; a Python exception of the analysed code on a valid configuration is a violation, a construct outside the
     interpreter's subset an analysis error.  With `partial`, an evaluation that outgrows the formula budget returns ("toolarge", reason):
     the caller repeats it on a shorter history (formulas explode only when an operation of the recurrence is not the documented one, so
-    the first steps already contradict the documentation)"""
+    the first steps already contradict the documentation).  Every evaluation runs under a work budget (term products of the formula
+    arithmetic) a few times what the documented code needs, so that a variant whose formulas explode costs seconds, not minutes"""
+    own_cap = I.WORK[1] is None
+    if own_cap:
+        I.work_reset(cap)
     try:
         return True, thunk()
     except I.TooLarge as e:
@@ -201,6 +208,9 @@ def _guard(ctx, tag, where, thunk, partial=False):
             ctx.error(f"{tag}: evaluation", where, str(e))
     except Unsupported as e:
         ctx.error(f"{tag}: evaluation", where, str(e))
+    finally:
+        if own_cap:
+            I.work_reset()
     return False, None
 
 
@@ -538,19 +548,19 @@ class NewmarkRun:
 
 
 _NM_CONFIGS = [
-    # key                     unc    nonlin  ic     rf             m_none diag2d
+    # 4-step histories for the four arms; 3 steps (start-up, one regular step, the extra step) where only the variant matters and formulas are large
     ("unc-lin", dict(unc=UNC_F, nonlin=False)),
     ("unc-nl", dict(unc=UNC_F, nonlin=True)),
     ("cpl-lin", dict(unc=CPL, nonlin=False)),
     ("cpl-nl", dict(unc=CPL, nonlin=True)),
     ("unc-lin-noic", dict(unc=UNC_F, ic=False)),
-    ("cpl-lin-v0", dict(unc=CPL, ic="v0")),
+    ("cpl-lin-v0", dict(unc=CPL, ic="v0", nt=3)),
     ("unc-lin-m0", dict(unc=UNC_F, m_none=True, nt=3)),         # identity mass: the constant 1/h^2 terms make longer histories expensive
     ("cpl-lin-m0", dict(unc=CPL, m_none=True, nt=3)),
     ("unc-lin-rft", dict(unc=UNC_F, rf="trailing")),
-    ("cpl-lin-rft", dict(unc=CPL, rf="trailing")),
+    ("cpl-lin-rft", dict(unc=CPL, rf="trailing", nt=3)),
     ("unc-nl-rfi", dict(unc=UNC_F, nonlin=True, rf="interleaved")),
-    ("cpl-lin-rfi", dict(unc=CPL, rf="interleaved")),
+    ("cpl-lin-rfi", dict(unc=CPL, rf="interleaved", nt=3)),
     ("unc-lin-2d", dict(unc=UNC_F, diag2d=True)),
     # index spaces (R6): the rf mode first, so that no partition starts at row 0
     ("unc-nl-rfl", dict(unc=UNC_F, nonlin=True, rf="leading")),
@@ -571,20 +581,28 @@ def _newmark_runs(ctx):
     docs, _ = documented_newmark(ctx)
     runs = {}
     n0 = len(ctx.obls)
+    left = 900000           # all configurations together need 300 000 term products on the documented code
     for key, cfg in _NM_CONFIGS:
         r = NewmarkRun(ctx, docs, **cfg)
         tag = f"SolveNewmark ({r.tag})"
         facts = None
         for attempt in (0, 1):
-            # the configurations need at most 70 000 term products on the documented code: three times that is "the formulas explode"
-            I.work_reset(200000 if attempt == 0 else 100000)
+            if left <= 0:
+                ctx.error(f"{tag}: evaluation", where, "the work budget of the rule is used up (the formulas of the earlier configurations explode)")
+                break
+            # a configuration needs at most 70 000 term products on the documented code: three times that is "the formulas explode"
+            I.work_reset(min(left, 200000 if attempt == 0 else 100000))
             try:
                 ok, why = _guard(ctx, tag, where, lambda: r.run().facts(), partial=attempt == 0)
             finally:
+                left -= I.WORK[0]
                 I.work_reset()
             if ok == "toolarge":
+                if r.nt <= 3:
+                    ctx.error(f"{tag}: evaluation", where, why)
+                    break
                 # the formulas outgrew the budget: decide on the shortest history that has a start-up step, one regular step and the extra step
-                r = NewmarkRun(ctx, docs, nt=3, **cfg)
+                r = NewmarkRun(ctx, docs, **{**cfg, "nt": 3})
                 r.reduced = True
                 continue
             if ok:
@@ -804,6 +822,10 @@ def _cdf_interp(ctx):
         if n is None:
             raise I.PyRaise("ValueError", "get_su_coef: m, b, k must be vectors")
         pc = I.Obj(None, "pc", **{c: vec("c" + c, n) for c in _COEFS})
+        for nm in ("pvrb", "pvrb_damped"):            # the documented result has exactly these members: no (damped) rigid-body mode
+            pc.attrs[nm] = I.NDArr.full((n,), False)
+            pc.attrs[nm].kind = "bool"
+        pc.complete = True
         log.append({"env": env, "pc": pc})
         return pc
 
@@ -852,16 +874,18 @@ def _strip(trace, cls="SolveCDF."):
     return [t for t in trace if not t.startswith(cls)]
 
 
-def _diag_damping_case(ctx, where, tag, m, b, k, with_generator):
+def _diag_damping_case(ctx, where, tag, m, b, k, with_generator, order=1, rf=None):
     """SolveCDF(m, b, k, h) against SolveUnc(m, b, k, h) on diagonal damping: members, tsolve, generator + finalize, executed functions"""
     nt = 3
     res = {}
+    n = b.shape[0]
     for cname, rel in (("SolveCDF", CDF), ("SolveUnc", UNC)):
         it = _cdf_interp(ctx)
-        f, d0, v0 = mat("f", N, nt), vec("d0"), vec("v0")
+        f, d0, v0 = mat("f", n, nt), vec("d0", n), vec("v0", n)
 
         def go(it=it, cname=cname, rel=rel, f=f, d0=d0, v0=v0):
-            obj = it.instantiate(it.cls(rel, cname), m.copy(), b.copy(), k.copy(), H)
+            kw = {"rf": list(rf)} if rf else {}
+            obj = it.instantiate(it.cls(rel, cname), m.copy(), b.copy(), k.copy(), H, order=order, **kw)
             mem = dict(obj.attrs)
             sol = it.call_method(obj, "tsolve", f.copy(), d0.copy(), v0.copy())
             out = {"obj": obj, "members": mem, "sol": sol, "trace": list(it.trace)}
@@ -899,21 +923,21 @@ def _diag_damping_case(ctx, where, tag, m, b, k, with_generator):
 
 def r4_cdf_equals_unc_on_diagonal(ctx):
     where = ctx.src.cls(CDF, "SolveCDF")
-    dv = lambda nm: vec(nm, N)
-    dm = lambda nm: I._np_diag(None, [vec(nm, N)], {})
+    dv = lambda nm, n=N: vec(nm, n)
+    dm = lambda nm, n=N: I._np_diag(None, [vec(nm, n)], {})
     fm = lambda nm: mat(nm, N, N)
     bad_members, bad_paths, okrun = [], [], True
-    first = True
-    for nm, mk in (("vector", dv), ("diagonal matrix", dm)):
-        for mk_mk in (dv, dm):
-            tag = f"diagonal damping given as {nm}"
-            bad = _diag_damping_case(ctx, where, tag, mk_mk("m"), mk("b"), mk_mk("k"), with_generator=first)
-            first = False
-            if bad is None:
-                okrun = False
-                continue
-            bad_members += [f"{nm}: {x}" for x in bad if not x.startswith("executed")]
-            bad_paths += [f"{nm}: {x}" for x in bad if x.startswith("executed") or "histories" in x]
+    # damping / mass and stiffness as vector or diagonal matrix; order 1 and 0; generator where it exists; an rf mode last and in the middle
+    for nm, mk, mk_mk, order, rf, gen in (("vector", dv, dv, 1, None, True), ("vector", dv, dm, 0, None, True),
+                                          ("diagonal matrix", dm, dv, 1, [2], False), ("diagonal matrix", dm, dm, 0, [1], False)):
+        n = N + (1 if rf else 0)
+        tag = f"diagonal damping given as {nm}, order {order}" + (f", rf mode {rf[0]}" if rf else "")
+        bad = _diag_damping_case(ctx, where, tag, mk_mk("m", n), mk("b", n), mk_mk("k", n), with_generator=gen, order=order, rf=rf)
+        if bad is None:
+            okrun = False
+            continue
+        bad_members += [f"{tag}: {x}" for x in bad if not x.startswith("executed")]
+        bad_paths += [f"{tag}: {x}" for x in bad if x.startswith("executed") or "histories" in x]
     if okrun:
         ctx.check(not bad_members, "with diagonal damping (vector or diagonal matrix) SolveCDF(m, b, k, h) has exactly the members of SolveUnc(m, b, k, h), "
                                    "cdforces stays False, and tsolve / generator + finalize return the same histories", where, bad_members or None)
@@ -1119,31 +1143,41 @@ def r6_typing(ctx):
 
 
 RULES = [
-    ("C17-R1", r1_four_branch_agreement, 16),
-    ("C17-R2", r2_code_equals_documentation, 49),
-    ("C17-R3", r3_differences, 9),
+    ("C17-R1", r1_four_branch_agreement, 29),
+    ("C17-R2", r2_code_equals_documentation, 60),     # 63 with the three comment formulas (documentation only: they may be dropped)
+    ("C17-R3", r3_differences, 12),
     ("C17-R4", r4_cdf_equals_unc_on_diagonal, 7),
-    ("C17-R5", r5_implicit_update, 8),
-    ("C17-R6", r6_typing, 20),
+    ("C17-R5", r5_implicit_update, 10),
+    ("C17-R6", r6_typing, 22),                        # the value obligations of the two leading-rf runs; the typer's count depends on the spelling
 ]
 LEVEL = "other"
-EXPLANATION = ("Static: the source of SolveNewmark and of the damping-as-force path of SolveUnc is interpreted on a 2-dof, 5-step system with symbolic "
-               "entries (explicit matrices, so the order of matrix products counts) in every configuration the code distinguishes. The factored Newmark "
-               "matrices equal the formulas parsed from the class docstring's LaTeX, the start-up step uses the documented u_-1 (stored for the nonlinear "
-               "functions unconditionally), F_-1 and replaced F_0, every step of tsolve is the documented recurrence in all four configurations, the last "
-               "velocity/acceleration come from the recurrence with the linearly extrapolated force, velocities/accelerations are the documented "
-               "differences, nonlinear functions see the final history of steps 0..j; SolveCDF forwards to SolveUnc and _chk_diag_part leaves cdforces "
-               "False for diagonal damping; alpha = C_od (I + Bp C_od)^-1 entry by entry and two steps of the CDF loop satisfy the implicit equations.")
+EXPLANATION = ("Static: the source of SolveNewmark and of SolveCDF / SolveUnc(cd_as_force) is interpreted from the public entry points (constructor, "
+               "def_nonlin, tsolve, generator, finalize) on a 2-dof (+1 rf mode), 3-4 step system with symbolic entries (explicit matrices, so the order of "
+               "matrix products counts) in every configuration the code distinguishes. The history tsolve returns is the documented recurrence with A, "
+               "A_1, A_0 parsed from the class docstring's LaTeX: start-up with the documented u_-1 (stored for the nonlinear functions unconditionally), "
+               "F_-1 and replaced F_0, every later step in all configurations, the last velocity/acceleration from the recurrence with the linearly "
+               "extrapolated force, velocities/accelerations as the documented differences, nonlinear functions called once per step on the final history "
+               "of steps 0..j with their own optional arguments, rf equations solved statically; with diagonal damping SolveCDF has the members, "
+               "histories (tsolve and generator) and executed functions of SolveUnc; with coupled damping two steps of SolveCDF.tsolve satisfy the "
+               "documented implicit equations with C_od the off-diagonal damping and the coefficients of get_su_coef(m, diag(b), k, h).")
 MANIFEST = {
-    "text": "Partial claim decided statically on values (abstract interpretation of the source on a small symbolic system): (R1) the documented recurrence at "
-            "every step in the four configurations of tsolve, their agreement, and last-step extrapolation; (R2) code == documentation for A, A_1, A_0 (LaTeX "
-            "parsed from the docstring; diagonal and full matrices, m None/given), start-up u_-1 / F_-1 / F_0, the 1/3 force average pre-multiplied by inv(A), "
-            "zero default initial conditions, static rf solution; (R3) central differences, nonlinear term placement and recording, def_nonlin; "
-            "(R4) SolveCDF == SolveUnc on diagonal damping (outcome of _chk_diag_part, argument forwarding, unreachability of the cdforces solvers); "
-            "(R5) alpha = C_od (I + Bp C_od)^-1 with the order of the products, and the implicit V1, D1 equations over two steps; (R6) index-space typing. "
-            "Not decided: order of convergence, boundedness, massless-DOF behaviour numerically; interleaved rf layouts (left to R6's typing).",
-    "note": "Trusted: CPython ast; verifier/e2_formula.py (exact rational functions); verifier/c17_interp.py (model of the numpy/scipy subset: basic indexing "
-            "views, broadcasting, matmul, transpose/swapaxes, solve, lu_factor/lu_solve); the LaTeX subset reader in verifier/c17.py.",
-    "technique": "abstract interpretation of the solver source over concrete shapes and symbolic entries, compared with formulas parsed from the docstring's LaTeX "
-                 "and an independent transcription of the documented recurrences; three-valued dominance for the cdforces call sites",
+    "text": "Partial claim decided statically on values observed at the public interface (abstract interpretation of the source from the constructor to the "
+            "returned solution on a small symbolic system): (R1) the documented recurrence A u_j = (F_j + F_j-1 + F_j-2)/3 + N_j-1 + A_1 u_j-1 + A_0 u_j-2 at "
+            "every step j >= 2 of the returned history in 13 configurations, last-step extrapolation, agreement of the four arms; (R2) code == documentation: "
+            "members A1 / A0 / Ad (when kept as arrays) against the LaTeX formulas for diagonal and full matrices, m None/given; start-up u_-1 / F_-1 / F_0 / "
+            "N_0, the 1/3 force average through inv(A), zero default initial conditions, static rf solution; (R3) central differences, nonlinear term "
+            "placement, call convention and recording, def_nonlin; (R4) SolveCDF == SolveUnc on diagonal damping (members, tsolve, generator + finalize, "
+            "executed functions; orders 0/1, rf modes), cdforces / bo / b on coupled damping, argument forwarding; (R5) alpha = C_od (I + Bp C_od)^-1 with the "
+            "order of the products (when kept as a matrix), and the implicit V1, D1 equations over two steps of SolveCDF.tsolve for order 1 and 0; (R6) index "
+            "spaces on values (rf mode first, so that no partition starts at row 0) plus the shared index-space typer on the public methods. "
+            "Not decided: order of convergence, boundedness, massless-DOF behaviour numerically; the cdforces generator under coupled damping.",
+    "note": "Trusted: CPython ast; verifier/e2_formula.py (exact rational functions); verifier/c17_interp.py (interpreter for the Python subset the solvers "
+            "and their base class use - classes, properties, closures, generators (run one yield at a time), lazy iterators - and a model of the numpy/scipy "
+            "subset: basic / advanced / mask indexing with view semantics, broadcasting, matmul, transpose/swapaxes, ix_, nonzero, solve, lu_factor/lu_solve); "
+            "the LaTeX subset reader in verifier/c17.py. Assumed: h != 0; ytools.isdiag decides diagonality; get_su_coef returns its documented record "
+            "(coefficients named, not computed); stiffness entries are not numerically zero (no rigid-body modes in the symbolic system).",
+    "technique": "abstract interpretation of the solver source from its public entry points over concrete shapes and symbolic entries, compared with formulas "
+                 "parsed from the docstring's LaTeX and an independent transcription of the documented recurrences; the system is named by its documented "
+                 "A, A_1, A_0 (a bijective re-parametrisation of M, B, K for h != 0) and inv(A) is kept as a matrix of symbols with exact equality modulo "
+                 "inv(A) A = I",
 }
